@@ -13,6 +13,7 @@ From GE Require Import Model.Blind.
 From GE Require Import Model.Taproot.
 From GE Require Import Model.SigValidate.
 From GE Require Import Model.Roles.
+From GE Require Import Model.Unblind.
 Extraction Language OCaml.
 Extraction "model.ml"
   Byte.of_N Byte.to_N N.of_nat N.to_nat Z.of_N
@@ -35,4 +36,7 @@ Extraction "model.ml"
   assemble_c cb_root_c parse_cb parse_cb_c ser_cb to_cb tapleaf_kv parse_tapleaf_kv_c verify_with_oracle
   tweak_priv tweak_scalar scalar_of_bytes scalar_to_bytes x_on_curve tnode_hash leaf_hash
   vs_validate_input vs_validate_all vs_disasm
-  R11.init R11.step R11.rt R11.locktime.
+  R11.init R11.step R11.rt R11.locktime
+  ub_fit is_conf_out calc_asset_hash calc_token_hash o_nonce_hash o_asset_commitment o_value_commitment
+  o_range_proof o_verify_range_proof o_blind_output o_blind_issuance_amount o_unblind_with_key
+  o_unblind_with_nonce o_unblind_issuance.
